@@ -72,12 +72,12 @@ def main():
         meta["ran"] = ["git apply patch.diff; make -j8 check (17/17 expected)", "sh demo.sh <worktree> with and without the patch",
                        "VERIF_REPO=<patched copy> ./check <id> quick"]
         if confirmed:
-            dest = os.path.join(ROOT, "seeded", "%s-%s" % (pid, k))
+            dest = os.path.join(ROOT, "seeded", "%s%s-%s" % (pid, os.environ.get("SEED_TAG", ""), k))
             shutil.rmtree(dest, ignore_errors=True)
             shutil.copytree(md, dest)
             json.dump(meta, open(os.path.join(dest, "meta.json"), "w"), indent=1)
-        print("%s-%s confirmed=%s make_check=%s demo(with,without)=(%s,%s) detected_by=%s" % (
-            pid, k, confirmed, passed, d_with, d_without, meta["detected_by"]), flush=True)
+        print("%s%s-%s confirmed=%s make_check=%s demo(with,without)=(%s,%s) detected_by=%s" % (
+            pid, os.environ.get("SEED_TAG", ""), k, confirmed, passed, d_with, d_without, meta["detected_by"]), flush=True)
         for c, r in results.items():
             print("    ", c, r if not isinstance(r, dict) else (r["rc"], r["detail"][:250]))
     sh("git checkout -- .", cwd=wt)
